@@ -123,6 +123,11 @@ impl<'i> AttributeMatcher<'i> {
 
     #[inline]
     pub fn matches_splitted_by_whitespace(&self, operand: &AttrExprOperands) -> bool {
+        // NOTE: `[attr~=""]` and `[attr~="a b"]` represent nothing
+        if operand.value.is_empty() || operand.value.iter().any(|&b| is_attr_whitespace(b)) {
+            return false;
+        }
+
         self.value_matches(&operand.name, |actual_value| {
             let case_sensitivity = to_unconditional(operand.case_sensitivity, self.is_html_element);
 
@@ -139,7 +144,8 @@ impl<'i> AttributeMatcher<'i> {
 
             let prefix_len = operand.value.len();
 
-            !actual_value.is_empty()
+            // NOTE: `[attr^=""]` represents nothing
+            prefix_len != 0
                 && actual_value.len() >= prefix_len
                 && actual_value
                     .get(..prefix_len)
@@ -173,7 +179,8 @@ impl<'i> AttributeMatcher<'i> {
             let suffix_len = operand.value.len();
             let value_len = actual_value.len();
 
-            !actual_value.is_empty()
+            // NOTE: `[attr$=""]` represents nothing
+            suffix_len != 0
                 && value_len >= suffix_len
                 && actual_value
                     .get(value_len - suffix_len..)
